@@ -2,7 +2,7 @@
    makeConstant calls, which numbers the constant pool) is the interpretation of the code-generation
    schemes regenerated from compiler/compiler.go.  Same structure as Bridge/BrSchemes.v. *)
 From Coq Require Import ZArith Bool List String Arith Lia.
-Require Import X.Base.Num X.Base.Value X.Syn.Ast X.Sem.Prim X.Sem.Sem X.BC.Instr X.BC.Decode X.BC.Compiler
+Require Import X.Base.Num X.Base.Value X.Syn.Ast X.Sem.Prim X.Sem.Sem X.Sem.MatchesFacts X.BC.Instr X.BC.Decode X.BC.Compiler
                X.BC.Assemble X.BC.Schemes X.BC.SchemesItems X.BC.SchemesProofs X.gen.GenSchemes.
 Import ListNotations.
 Local Open Scope nat_scope.
@@ -122,12 +122,22 @@ Proof.
   - rewrite !(both_kind_diff _ _ _ E). cbn. fin.
 Qed.
 
+(* MatchesNode: the regenerated guard (type assertion on node.Right, Regexp != nil, Regexp.String() ==
+   the literal's Value) is Ast.re_const: the pre-compiled pattern is used only while the right operand
+   still is the literal it was compiled from; otherwise the right operand is compiled. *)
 Lemma istep_matches a re l r :
-  rec l = Some (comp l) -> (re = None -> rec r = Some (comp r)) ->
+  rec l = Some (comp l) -> (re_const re r = None -> rec r = Some (comp r)) ->
   I (EMatches a re l r) = Some (comp (EMatches a re l r)).
 Proof.
-  intros Hl Hr. destruct re as [p|]; go; rewrite Hl; cbn; [fin|].
-  rewrite (Hr eq_refl). cbn. fin.
+  intros Hl Hr. destruct (re_const re r) as [p|] eqn:Erc.
+  - (* the right operand still is the literal the Regexp field was compiled from *)
+    apply re_const_some in Erc. destruct Erc as [-> [b ->]].
+    go. rewrite String.eqb_refl. cbn. rewrite Hl. cbn. fin.
+  - (* no field, another literal, or not a literal: the right operand is compiled *)
+    specialize (Hr eq_refl).
+    destruct re as [p|], r; cbn [re_const] in Erc;
+      try (destruct (String.eqb p s) eqn:E; [discriminate Erc|]);
+      go; rewrite ?E; cbn; rewrite Hl; cbn; rewrite Hr; cbn; fin.
 Qed.
 
 Lemma istep_property a x name ns :
